@@ -1017,6 +1017,13 @@ class Env:
     def array_len(self, o, depth=6):
         """N when operand o is (a reference to / an unsized view of) a place of type [T; N] or GenericArray<T, N>; else None."""
         b = self.b
+        kc = op_const(o)
+        if kc is not None:
+            kb = const_bytes(kc)
+            if kb is None and kc.get("def"):
+                cc = b.facts.consts.get(kc["def"]) or {}
+                kb = bytes.fromhex(cc["bytes"]) if "bytes" in cc else None
+            return len(kb) if kb is not None else None
         p = op_place(o)
         if p is None or depth <= 0:
             return None
@@ -1250,6 +1257,78 @@ class Env:
                 vt = Term(self.uname(v), 0, [(v, (bi, si))], b.lty(v))
                 facts.append(((Term(None, 0), vt, 0), (bi, si), v))
                 facts.append(((vt, Term(None, n - 1), 0), (bi, si), v))
+        return facts
+
+    def closure_param_len_facts(self):
+        """the body is a closure handed to map / filter_map / for_each / ... of an iterator created by chunks_exact(k) /
+        par_chunks_exact(k) / windows(k) (len == k) or chunks(k) / par_chunks(k) (1 <= len <= k), k constant: facts about
+        the length of its slice parameter."""
+        b = self.b
+        if b.kind != "Closure" or b.argc < 2:
+            return []
+        F = b.facts
+        facts = []
+        for pb in F.bodies.values():
+            if pb.file != b.file:
+                continue
+            for bi, si, st in pb.stmts():
+                rv = st.get("rv")
+                if not (rv and rv["k"] == "agg" and rv["kind"].get("a") == "closure" and rv["kind"]["def"] == b.path) or st["lhs"]["p"]:
+                    continue
+                cl = st["lhs"]["l"]
+                # the call that consumes the closure value (possibly through copies / borrows of the closure variable)
+                holders, work = {cl}, [cl]
+                while work:
+                    x = work.pop()
+                    for u in pb.uses(x):
+                        if u["kind"] in ("rv", "ref") and "stmt" in u and not u["stmt"]["lhs"]["p"] and u["stmt"]["lhs"]["l"] not in holders and len(holders) < 8:
+                            holders.add(u["stmt"]["lhs"]["l"])
+                            work.append(u["stmt"]["lhs"]["l"])
+                for u in [u_ for h in holders for u_ in pb.uses(h)]:
+                    if u["kind"] != "arg" or u.get("argi", 0) < 1:
+                        continue
+                    c = pb.callsite_at(u["bb"])
+                    if (c.fn or "").rsplit("::", 1)[-1] not in ("map", "filter_map", "for_each", "flat_map", "filter", "try_for_each", "any", "all", "find", "position"):
+                        continue
+                    # receiver chain back to the chunking call
+                    cur = c.args[0]
+                    kind, k = None, None
+                    for _ in range(6):
+                        p = op_place(cur)
+                        if p is None or p["p"]:
+                            break
+                        d = pb.single_def(p["l"])
+                        if d is None:
+                            break
+                        if d[2] == "rv" and d[3]["k"] in ("use", "ref"):
+                            cur = d[3]["o"] if d[3]["k"] == "use" else {"c": d[3]["p"]}
+                            continue
+                        if d[2] != "call":
+                            break
+                        short = (d[3]["f"].get("fn") or "").rsplit("::", 1)[-1]
+                        if short in ("chunks_exact", "par_chunks_exact", "windows", "par_windows", "chunks", "par_chunks", "chunks_exact_mut", "chunks_mut") and len(d[3]["args"]) == 2:
+                            kc = op_const(d[3]["args"][1])
+                            k = const_int(kc) if kc is not None else None
+                            kind = short
+                            break
+                        if short in ("into_iter", "into_par_iter", "enumerate", "iter", "by_ref", "rev") and d[3]["args"]:
+                            cur = d[3]["args"][0]
+                            continue
+                        break
+                    if kind is None or k is None or k <= 0:
+                        continue
+                    par = 2       # first parameter after the environment
+                    ty = b.lty(par)
+                    if not re.match(r"^&(mut )?\[", ty):
+                        continue
+                    vt = self.local_term(par, (0, 0), 2)
+                    ln = Term("len(%s)" % strip_ref(repr(vt)), 0, len_reads(((par, (0, 0)),)), "usize")
+                    kt = Term(None, k)
+                    facts.append((ln, kt, 0))
+                    if "exact" in kind or "windows" in kind:
+                        facts.append((kt, ln, 0))
+                    else:
+                        facts.append((Term(None, 1), ln, 0))
         return facts
 
     def chunk_var_facts(self):
@@ -1634,6 +1713,8 @@ def knowledge(env, site_bb, site_idx, terms):
         cands.append((item[0], "chunk"))
     for item in env.enumerate_take_facts():
         cands.append((item[0], "enumerate-take"))
+    for fx in env.closure_param_len_facts():
+        cands.append((fx, "closure-param"))
     # locals mentioned anywhere (facts or requirement)
     mentioned = set()
     for t in terms:
